@@ -385,7 +385,8 @@ def rules(ctx):
     comp_ok = False
     for n in walk_no_nested(strip_docstring(ps.node.body)):
         if isinstance(n, ast.Assign) and any(isinstance(t, ast.Attribute) and t.attr == '_constraints' for t in n.targets):
-            v = n.value
+            from ..astutil import expand_names as _xn
+            v = _xn(ps.node, n.value)
             if isinstance(v, ast.DictComp) and len(v.generators) == 1 and not v.generators[0].ifs \
                     and src(v.generators[0].iter) == '%s._constraints.items()' % sn2 \
                     and isinstance(v.value, ast.ListComp) and len(v.value.generators) == 1 \
